@@ -176,10 +176,12 @@ def exitStatus (r : Int) : Nat := (r % 256).toNat
 inductive Run where
   | refused                       -- opt_verify failed / errx during option processing
   | started (hs : List Host)
+  | aborted                       -- errx while the run is under way: batch-mode ^C, a second ^C within a second
   deriving Repr
 
 def mainExit (fx : Fixes) (fl : Flags) : Run → Nat
   | .refused => 1
+  | .aborted => 1                 -- _handle_sigint: errx ("... aborting.") = exit (1)
   | .started hs => if fl.k && hs.any kFails then 1 else exitStatus (dshReturn fx fl hs)
 
 /-! ### from outcomes to scripts: the two status channels -/
